@@ -371,6 +371,26 @@ func ruleC13Advance(cx *Ctx) {
 				}
 			}
 		}
+		if !ok {
+			// the same test written on the two tick counts: swept when current != previous, with current - previous
+			for _, g := range guardsAt(call.Block()) {
+				b, isB := g.Cond.(*ssa.BinOp)
+				if !isB || (b.Op != token.EQL && b.Op != token.NEQ) || (b.Op == token.EQL) == g.Truth {
+					continue
+				}
+				allInstrs(fn, func(in ssa.Instruction) {
+					sub, isSub := in.(*ssa.BinOp)
+					if !isSub || sub.Op != token.SUB || !((sub.X == b.X && sub.Y == b.Y) || (sub.X == b.Y && sub.Y == b.X)) {
+						return
+					}
+					for _, a := range callArgs(call) {
+						if derivedFrom(a, sub, 0) {
+							ok = true
+						}
+					}
+				})
+			}
+		}
 		cx.R.Check(ok, rule, name, "level sweep", cx.P.where(call), "a level is swept whenever its tick delta is non-zero, with that delta")
 	}
 }
